@@ -134,6 +134,10 @@ func ForallKeys(m interface{}, p func(k uint64) bool) bool {
 	return true
 }
 
+// PrivateError: err is a sentinel created by errors.New in the initialisation of the package that declares it, so
+// no other package can return it. Decided by the generator from the package's init function; natively unknowable.
+func PrivateError(err error) bool { return true }
+
 // Window reports whether out is exactly the window data[lo:hi] of the same
 // memory (an alias, not a copy).
 func Window(out, data []byte, lo, hi int) bool {
